@@ -160,4 +160,45 @@ theorem loadModel_ne_ok (fs : FS) : ∀ (fuel : Nat) (f : String) (ps inc : List
     apply applyInclude_ne_ok
     exact ⟨c, qs, hm, fun inc' => loadModel_ne_ok fs fuel c qs inc' hc⟩
 
+/-! ### the include loop has no panic branch -/
+
+theorem applyInclude_ne_panic (load : List String → List String → Res) (h : ∀ a b s, load a b ≠ .panic s) :
+    ∀ (entries : List (List String)) (included : List String) (s : String), applyInclude load entries included ≠ .panic s
+  | [], _, _ => by unfold applyInclude; intro e; cases e
+  | [] :: rest, included, s => by
+    unfold applyInclude
+    exact applyInclude_ne_panic load h rest included s
+  | (p0 :: ps) :: rest, included, s => by
+    unfold applyInclude
+    split
+    · intro e; cases e
+    · split
+      · exact applyInclude_ne_panic load h rest included s
+      · rename_i r hr
+        have := h (p0 :: ps) included s
+        intro e
+        simp_all
+
+theorem loadFiles_ne_panic (fs : FS) (inc : List (List String) → List String → Res) (h : ∀ a b s, inc a b ≠ .panic s) :
+    ∀ (files included : List String) (s : String), loadFiles fs inc files included ≠ .panic s
+  | [], _, _ => by unfold loadFiles; intro e; cases e
+  | f :: rest, included, s => by
+    unfold loadFiles
+    split
+    · intro e; cases e
+    · rename_i entries hl
+      split
+      · exact loadFiles_ne_panic fs inc h rest included s
+      · rename_i r hr
+        have := h entries (included ++ [f]) s
+        intro e
+        simp_all
+
+theorem loadModel_ne_panic (fs : FS) : ∀ (fuel : Nat) (files included : List String) (s : String),
+    loadModel fs fuel files included ≠ .panic s
+  | 0, _, _, _ => by unfold loadModel; intro e; cases e
+  | fuel + 1, files, included, s => by
+    unfold loadModel
+    exact loadFiles_ne_panic fs _ (applyInclude_ne_panic _ (loadModel_ne_panic fs fuel)) files included s
+
 end CV.C01.Inc
